@@ -6,7 +6,7 @@ from lib import *
 from lib import ABORTS
 
 FAMS_QUICK = ["rw", "nest", "plain", "rec", "strictx", "alias"]
-FAMS_C01 = FAMS_QUICK + ["diam", "ttu2", "cyc"]
+FAMS_C01 = FAMS_QUICK + ["diam", "ttu2", "cyc", "ord"]
 
 # tier -> per family TLC constants
 TIERS = {
@@ -230,6 +230,7 @@ def c02(tier):
     bdB = [4, dmax + 2, -2, 2]
     resB = run_plain(binary, defs, groups, g2, rdB, scheds=0, bdepths=bdB)
     batch_cmp = 0
+    hung = [0]   # checks that did not return: termination is C15's verdict; here they only leave a comparison out
 
     def batch_agrees(r, rd, bd, g, wi, gdepth):
         """every batch transport, at request depth d, answers entry by entry what the single check answers at d on the same server"""
@@ -237,6 +238,9 @@ def c02(tier):
         for bi, d in enumerate(bd):
             for tr, key in (("engine BatchCheck", "pbe"), ("gRPC BatchCheck", "pbg"), ("REST batch check", "pbr")):
                 got = (r.get(key) or [])
+                if bi < len(got) and got[bi] == "H":
+                    hung[0] += 1
+                    continue
                 if bi >= len(got) or len(got[bi]) != len(g["q"]):
                     raise Inconclusive("batch result missing (%s, depth %d): %r" % (tr, d, got[bi] if bi < len(got) else None))
                 for qi, q in enumerate(g["q"]):
@@ -269,8 +273,14 @@ def c02(tier):
                         ck.evaluations += 1
                         c = real[di]
                         e = eff(d, dmax)
+                        # the limits bound the exploration: never more storage calls than the spec's exhaustive evaluation within them
+                        if r["calls"][qi][di] > line["mc"][e - 1]:
+                            ck.violation("a check with depth limit %d and width limit %d issued %d storage calls; exploring everything within these limits takes at most %d"
+                                         % (e, df["widths"][wi], r["calls"][qi][di], line["mc"][e - 1]),
+                                         dict(case_id(g, wi, qi, d, defs), observed=c, calls=r["calls"][qi][di], bound=line["mc"][e - 1]))
                         if c == "H":
-                            raise Inconclusive("check did not return")
+                            hung[0] += 1
+                            continue
                         # fail closed: allowed under any limit implies allowed by the unbounded semantics
                         if c in "IX" and not q["ref"]:
                             if "C02-unknown-collapse" in kf and fail_open_known(line, e - 1):
@@ -284,7 +294,7 @@ def c02(tier):
                         if d != e:
                             clamp_cases += 1
                             same = real[rdA.index(e)]
-                            if c != same:
+                            if c != same and same != "H":
                                 ck.violation("request depth %d on a server with limit %d answered %s, but depth %d answers %s" % (d, dmax, c, e, same),
                                              dict(case_id(g, wi, qi, d, defs), observed=c, expected=same, global_depth=dmax))
             # clamp across servers: (r, g2) behaves as (eff(r, g2), g) on the same stored state
@@ -303,17 +313,22 @@ def c02(tier):
                     e = eff(d, g2)
                     c = rb["res"][qi][di]
                     same = ra["res"][qi][rdA.index(e)]
-                    if c != same:
+                    if "H" in (c, same):
+                        hung[0] += 1
+                    elif c != same:
                         ck.violation("request depth %d on a server with limit %d answered %s; a server with limit %d answers %s" % (d, g2, c, e, same),
                                      dict(case_id(g, wi, qi, d, defs), observed=c, expected=same, global_depth=g2))
                     elif d != e and c == "I":
                         ck.sample(dict(case_id(g, wi, qi, d, defs), global_depth=g2, effective=e, observed=c))
+    if hung[0] and not ck.violations:
+        raise Inconclusive("%d check(s) did not return within 10 s; termination is decided by C15" % hung[0])
     # every recorded witness must still reproduce; otherwise the entry is stale
     for f in known:
         if f["id"] not in ck.known_hits and not ck.violations:
             raise Inconclusive("known finding %s did not reproduce on its witness: remove it from known_findings.json" % f["id"])
-    import p_reconf
-    p_reconf.reconf(ck, binary, tier, "C02")
+    if not hung[0]:
+        import p_reconf
+        p_reconf.reconf(ck, binary, tier, "C02")
     ck.extra["clamp_comparisons"] = clamp_cases
     ck.extra["batch_entry_comparisons"] = batch_cmp
     ck.rule = ("cases of CheckCases.tla at every depth 1..%d and width, plus out-of-range request depths and a second "
@@ -407,6 +422,11 @@ def c15(tier):
                 elif r["calls"][qi][di] > line["mc"][di]:
                     ck.violation("check issued %d storage calls, the exhaustive evaluation of the spec issues at most %d" % (r["calls"][qi][di], line["mc"][di]),
                                  dict(case_id(g, wi, qi, di + 1, defs), calls=r["calls"][qi][di], bound=line["mc"][di]))
+    if any("did not return" in v[0] for v in ck.violations):
+        # the goroutines of a check that never returns keep their processors: nothing measured after this point would mean anything
+        ck.rule = "stopped after the first phase: checks that do not return"
+        ck.finish()
+        return
     # 2. cancellation at every instant
     transport_cancels = [0]
     inp = {"defs": defs, "groups": harness_groups(groups), "gdepth": dmax, "rdepths": rdepths, "mode": "cancel", "widths": wlast}
